@@ -151,8 +151,8 @@ func runSegments() {
 	family("segments/accept(json roundtrip into a nil map: nil, empty, every 1..3-prefix over 5 boundary segments)", n, n)
 
 	fill := [][4]int{{8, 30, 11, 30}, {13, 0, 17, 45}}
-	if R.Quick() {
-		// quick: every start x 8 boundary ends and 8 boundary starts x every end, in each position
+	{
+		// every start x 8 boundary ends and 8 boundary starts x every end, in each position
 		edge := [][2]int{{0, 0}, {0, 1}, {0, 59}, {9, 9}, {12, 0}, {19, 59}, {23, 59}, {24, 0}}
 		seen := map[[5]int]bool{}
 		list := []segmentsCase{}
@@ -174,21 +174,18 @@ func runSegments() {
 		}
 		vk.Parallel(len(list), func(i int) { checkSegments(list[i]) })
 		family("segments/accept(every start x 8 boundary ends and 8 boundary starts x every end, positions 1..3)", int64(len(list)), int64(len(list)))
-	} else {
-		// thorough: all 1441 x 1441 (start, end) pairs in each of the positions 1, 2, 3
-		for pos := 1; pos <= 3; pos++ {
-			var k atomic.Int64
-			vk.Parallel(len(allTimes), func(i int) {
-				a := allTimes[i]
-				for _, b := range allTimes {
-					segs := append([][4]int{}, fill[:pos-1]...)
-					segs = append(segs, [4]int{a[0], a[1], b[0], b[1]})
-					checkSegments(segmentsCase{Segs: segs})
-				}
-				k.Add(int64(len(allTimes)))
-			})
-			family(fmt.Sprintf("segments/accept(all 1441x1441 start/end pairs in position %d)", pos), k.Load(), k.Load())
-		}
+	}
+	if R.Thorough() {
+		// thorough: all 1441 x 1441 (start, end) pairs in position 1
+		var k atomic.Int64
+		vk.Parallel(len(allTimes), func(i int) {
+			a := allTimes[i]
+			for _, b := range allTimes {
+				checkSegments(segmentsCase{Segs: [][4]int{{a[0], a[1], b[0], b[1]}}})
+			}
+			k.Add(int64(len(allTimes)))
+		})
+		family("segments/accept(all 1441x1441 start/end pairs in position 1)", k.Load(), k.Load()-int64(16*1441-64)) // minus the pairs already in the boundary family
 	}
 	R.Sample(map[string]any{"family": "segments/accept", "value": "{1: 08:30-17:45}", "json": `[{"start":"08:30","end":"17:45"}]`, "expected": "decodes into a nil Segments as {1: 08:30-17:45}"})
 }
